@@ -204,7 +204,7 @@ PROPS = {
     "C09": dict(
         runs=[("iter", "", "iterrun", 600, 20000, 0)],
         corr={"model:iterator", "driver-error", "harness-error"}, corr_held=False,
-        spec={"spec:iterator"}, spec_held=False,
+        spec={"spec:iterator", "spec:iterator-crash"}, spec_held=False,
         rule="snapshot shapes built on the real collection with the merger parked: 0-4 in-memory segments of 1-6 ops "
              "(Set/Del/Merge over 14 keys incl. empty key, shared prefixes, 0xff), optionally over a store-backed lower "
              "level of 1-2 persisted rounds; one third 'shaped' (an old segment or lower level holding the first key and "
@@ -235,7 +235,7 @@ PROPS = {
         technique="Coq proof (footer-chain model, flat and with tree footers: walk = history since the last compaction for every accepted history of rounds and reverts; revert exact; immutability of older footers) + lock-step over previous/revert programs",
     ),
     "C15": dict(
-        runs=[("refs", "", "refsrun", 64, 1500, 0), ("owners", "", "ownersrun", 26, 260, 0)],
+        runs=[("refs", "", "refsrun", 64, 1500, 0), ("owners", "", "ownersrun", 34, 340, 0)],
         corr={"model:owner-events", "model:owner-files", "driver-error", "harness-error"}, corr_held=False,
         spec={"spec:ref-count-jump", "spec:ref-use-after-release", "spec:ref-leak", "spec:handle-changed",
               "spec:leaked-fd", "spec:leaked-mapping", "spec:stale-files", "spec:stale-files-after-file-switch"}, spec_held=False,
